@@ -40,7 +40,7 @@ def run(prop, tier, seed, verdict):
     workdir = os.path.join(WORK, prop)
     os.makedirs(workdir, exist_ok=True)
     rng = random.Random(seed * 613 + 16)
-    n = 48 if tier == "quick" else 2500
+    n = 96 if tier == "quick" else 2500
     runs = [(seed * 100000 + i, rng.choice([1, 2, 3, 4, 8])) for i in range(n)]
     shards = 8
     jobs = []
